@@ -2298,7 +2298,7 @@ def macro_generated():
     j2 = reg("mac_tyd", False, "inversion", ("C07",), pair=True)
     j2.dynamic = True
     j3 = reg("mac_paren", False, "inversion", ("C07", "C14"), pair=True)
-    for nm in ("mac_ty", "mac_tyd", "mac_paren"):
+    for nm in ("mac_ty", "mac_tyd", "mac_paren", "mac_hy", "mac_hyd"):
         text += (f"{cfg}pub fn {nm}<D>(deps: &D, p0: u64, p1: u64) -> u64 {{\n    let __f = sim::enter(60007, sim::addr(deps), &[]);\n    let _ = (p0, p1);\n    sim::exit(__f, &[])\n}}\n")
     text += ("pub struct MacTyTargetA(pub u64);\npub struct MacTyTargetB(pub u64);\npub struct MacTydTargetA(pub u64);\npub struct MacTydTargetB(pub u64);\n"
              "pub struct MacParenTargetA(pub u64);\npub struct MacParenTargetB(pub u64);\n")
